@@ -49,10 +49,28 @@ _HANGS = [0]
 
 
 def reset_hangs():
+    _NVIOL[0] = 0
+    _reset_hangs()
+
+
+def _reset_hangs():
     _HANGS[0] = 0
 
 
+_NVIOL = [0]
+
+
 def too_many_hangs(stats=None):
+    """also the place where a run() loop learns that it should stop generating cases: the deep-search time cap has passed, or
+    enough violations have been collected already"""
+    if common.past_oracle_cap():
+        if stats is not None:
+            stats["stopped_at_deep_search_cap_s"] = common.ORACLE_CAP[0][1]
+        return True
+    if _NVIOL[0] >= 60:
+        if stats is not None:
+            stats["stopped_after_violations"] = _NVIOL[0]
+        return True
     if _HANGS[0] >= MAX_HANGS:
         if stats is not None:
             stats["aborted_after_hangs"] = _HANGS[0]
@@ -444,6 +462,7 @@ class RecordChecker:
 # reporting helpers
 # ---------------------------------------------------------------------------------------------
 def violation(prop, case, clause, observed):
+    _NVIOL[0] += 1
     return {"property": prop, "clause": clause, "case": case, "observed": observed}
 
 
